@@ -7,6 +7,11 @@ package main
 // then the genuine C, the held-back genuine B and D follow. The server reads through the public
 // API (tlcp: Read; dtlcp: Read and ReadFrom) until D arrives.
 //
+// For the CBC suite T is also a record SEALED BY THE LEAN SIDE (oracle_c04 seal) under the client's
+// write keys, in B's place in the sequence, with LONG padding (GB/T 38636 6.3.3.4.2 allows up to 255
+// bytes): well-formed (fields padlong, padmid — it must be delivered) or with damaged padding bytes
+// far from / near the end (padbadfar, padbadfirst, padbadnear — it must not).
+//
 // The standard's verdict (Lean oracle, keys re-derived from the capture): T does not authenticate
 // unless untouched, so it must not be delivered, and it must change nothing — C, B and D must
 // still arrive (dtlcp; on tlcp a forged record is fatal: nothing more is delivered and Read fails).
@@ -18,6 +23,7 @@ package main
 import (
 	"fmt"
 	"net"
+	"os"
 	"strings"
 	"sync"
 	"time"
@@ -82,6 +88,7 @@ func tamper(field string, rec, prev []byte, hl int) []byte {
 
 type rxOut struct {
 	cp          capture
+	padlen      int
 	t, brec     []byte
 	b, c, d     []byte
 	got         [][]byte
@@ -166,6 +173,18 @@ func runRXTLCP(cfg rxCfg) (o rxOut, err string) {
 		return o, "hold"
 	}
 	o.t = tamper(cfg.field, o.brec, arec, 5)
+	if strings.HasPrefix(cfg.field, "pad") {
+		ch, sh := tlcpHandshakeMsgs(ce.SentBytes()), tlcpHandshakeMsgs(se.SentBytes())
+		if len(ch) == 0 || len(sh) == 0 || len(ch[0]) < 38 || len(sh[0]) < 38 {
+			return o, "hellos"
+		}
+		cmac, _, ckey, _, civ, _ := tlcp.VerifKeys(cfg.suite, cc.master, ch[0][6:38], sh[0][6:38])
+		seq := protectedCount(ce.SentBytes()) - 1 // B is the last one; T takes its place
+		o.t, o.padlen = sealPadded(cfg, "tlcp", ckey, civ, cmac, 0, uint64(seq))
+		if o.t == nil {
+			return o, "sealer"
+		}
+	}
 	ce.Inject(o.t)
 	c.Write(cm)
 	c.Write(d)
@@ -229,6 +248,28 @@ func runRXDTLCP(cfg rxCfg) (o rxOut, err string) {
 		return o, "hold"
 	}
 	o.t = tamper(cfg.field, o.brec, arec, 13)
+	if strings.HasPrefix(cfg.field, "pad") {
+		var cwire, swire []byte
+		for _, x := range ce.SentCopy() {
+			cwire = append(cwire, x...)
+		}
+		for _, x := range se.SentCopy() {
+			swire = append(swire, x...)
+		}
+		ch, sh := dtlcpLastMessage(cwire, 1), dtlcpLastMessage(swire, 2)
+		if len(ch) < 34 || len(sh) < 34 {
+			return o, "hellos"
+		}
+		cmac, _, ckey, _, civ, _ := dtlcp.VerifKeys(cfg.suite, cc.master, ch[2:34], sh[2:34])
+		var seq uint64
+		for _, b := range o.brec[5:11] {
+			seq = seq<<8 | uint64(b)
+		}
+		o.t, o.padlen = sealPadded(cfg, "dtlcp", ckey, civ, cmac, int(o.brec[3])<<8|int(o.brec[4]), seq)
+		if o.t == nil {
+			return o, "sealer"
+		}
+	}
 	se.Deliver(o.t, ce.LocalAddr())
 	c.Write(cm)
 	se.Deliver(o.brec, ce.LocalAddr()) // the genuine B arrives late (reordering is legal on datagrams)
@@ -270,9 +311,9 @@ func executeRXFull(desc string) (captured, obs string) {
 	if e != "" {
 		return "", "setup=" + strings.ReplaceAll(e, " ", "_")
 	}
-	captured = fmt.Sprintf("master=%s smaster=%s pre=- c2s=%s s2c=%s sentc=%s sents=- t=%s brec=%s b=%s c=%s d=%s",
+	captured = fmt.Sprintf("master=%s smaster=%s pre=- c2s=%s s2c=%s sentc=%s sents=- t=%s brec=%s b=%s c=%s d=%s padlen=%d",
 		hx.Hex(o.cp.master), hx.Hex(o.cp.smast), hx.Hex(o.cp.c2s), hx.Hex(o.cp.s2c), hx.Hex(o.cp.sentc),
-		hx.Hex(o.t), hx.Hex(o.brec), hx.Hex(o.b), hx.Hex(o.c), hx.Hex(o.d))
+		hx.Hex(o.t), hx.Hex(o.brec), hx.Hex(o.b), hx.Hex(o.c), hx.Hex(o.d), o.padlen)
 	var gs []string
 	for _, g := range o.got {
 		gs = append(gs, hx.Hex(g))
@@ -282,6 +323,129 @@ func executeRXFull(desc string) (captured, obs string) {
 		got = strings.Join(gs, ",")
 	}
 	return captured, fmt.Sprintf("got=%s end=%s", got, o.end)
+}
+
+// the Lean side as a sender, started on first use
+var (
+	sealOnce sync.Once
+	theSeal  *sealer
+	sealMu   sync.Mutex
+)
+
+func leanSeal(req string) []byte {
+	sealOnce.Do(func() {
+		path := oraclePath
+		if path == "" { // replay runs pass no -oracle: the framework's build output
+			if _, err := os.Stat("../lean/.lake/build/bin/oracle_c04"); err == nil {
+				path = "../lean/.lake/build/bin/oracle_c04"
+			}
+		}
+		theSeal = newSealer(path)
+	})
+	if theSeal == nil {
+		return nil
+	}
+	sealMu.Lock()
+	defer sealMu.Unlock()
+	return theSeal.seal(req)
+}
+
+// protectedCount: records after the ChangeCipherSpec in a TLCP byte stream
+func protectedCount(wire []byte) int {
+	n, after := 0, false
+	for i := 0; i+5 <= len(wire); {
+		l := int(wire[i+3])<<8 | int(wire[i+4])
+		if i+5+l > len(wire) {
+			break
+		}
+		if after {
+			n++
+		}
+		if wire[i] == 20 {
+			after = true
+		}
+		i += 5 + l
+	}
+	return n
+}
+
+// dtlcpLastMessage reassembles the epoch-0 handshake message of type typ with the highest message_seq.
+func dtlcpLastMessage(wire []byte, typ byte) []byte {
+	type asm struct {
+		body []byte
+		have int
+	}
+	msgs := map[int]*asm{}
+	best := -1
+	for i := 0; i+13 <= len(wire); {
+		n := int(wire[i+11])<<8 | int(wire[i+12])
+		if i+13+n > len(wire) {
+			break
+		}
+		if wire[i] == 22 && wire[i+3] == 0 && wire[i+4] == 0 {
+			p := wire[i+13 : i+13+n]
+			for len(p) >= 12 {
+				total := int(p[1])<<16 | int(p[2])<<8 | int(p[3])
+				ms := int(p[4])<<8 | int(p[5])
+				off := int(p[6])<<16 | int(p[7])<<8 | int(p[8])
+				fl := int(p[9])<<16 | int(p[10])<<8 | int(p[11])
+				if 12+fl > len(p) {
+					break
+				}
+				if p[0] == typ && off+fl <= total {
+					a := msgs[ms]
+					if a == nil {
+						a = &asm{body: make([]byte, total)}
+						msgs[ms] = a
+					}
+					if len(a.body) == total {
+						copy(a.body[off:], p[12:12+fl])
+						a.have += fl
+					}
+					if ms > best {
+						best = ms
+					}
+				}
+				p = p[12+fl:]
+			}
+		}
+		i += 13 + n
+	}
+	if a := msgs[best]; a != nil && a.have >= len(a.body) {
+		return a.body
+	}
+	return nil
+}
+
+// sealPadded asks the Lean side for an application-data record (9 bytes starting with 'T') under
+// the given write keys and sequence number whose padding is the variant cfg.field names.
+func sealPadded(cfg rxCfg, stack string, key, iv, mac []byte, epoch int, seq uint64) (rec []byte, padlen int) {
+	r := hx.NewRand(cfg.seed ^ 0x5eed)
+	x := append([]byte{'T'}, r.Bytes(8)...)
+	p0 := 15 - (len(x)+32)%16
+	kmax := (255 - p0) / 16
+	p := p0 + 16*kmax
+	if cfg.field == "padmid" {
+		p = p0 + 16*(1+r.Intn(kmax-1))
+	}
+	tail := make([]byte, p+1)
+	for i := range tail {
+		tail[i] = byte(p)
+	}
+	switch cfg.field {
+	case "padlong", "padmid":
+	case "padbadfar":
+		tail[r.Intn(p+1-16)] ^= byte(1 + r.Intn(255))
+	case "padbadfirst":
+		tail[0] ^= byte(1 + r.Intn(255))
+	case "padbadnear":
+		tail[p-15+r.Intn(15)] ^= byte(1 + r.Intn(255))
+	default:
+		return nil, 0
+	}
+	rec = leanSeal(fmt.Sprintf("stack=%s suite=%d key=%s iv=%s mac=%s epoch=%d seq=%d typ=23 ver=257 nonce=%s payload=%s tail=%s",
+		stack, cfg.suite, hx.Hex(key), hx.Hex(iv), hx.Hex(mac), epoch, seq, hx.Hex(r.Bytes(16)), hx.Hex(x), hx.Hex(tail)))
+	return rec, p
 }
 
 func rxCases(o hx.Opts, emit func(string)) {
@@ -303,6 +467,13 @@ func rxCases(o hx.Opts, emit func(string)) {
 			for _, f := range tfields {
 				emit(rxDesc(rxCfg{stack: "tlcp", suite: id, path: "read", field: f, seed: r.U64() >> 1}))
 			}
+		}
+		// long CBC padding sealed by the Lean side, through every receive path of both stacks
+		for _, f := range []string{"padlong", "padmid", "padbadfar", "padbadfirst", "padbadnear"} {
+			for _, path := range []string{"read", "readfrom"} {
+				emit(rxDesc(rxCfg{stack: "dtlcp", suite: 0xe013, path: path, field: f, seed: r.U64() >> 1}))
+			}
+			emit(rxDesc(rxCfg{stack: "tlcp", suite: 0xe013, path: "read", field: f, seed: r.U64() >> 1}))
 		}
 	}
 }
